@@ -126,16 +126,15 @@ Definition C05_run_outcome_statement : Prop :=
   forall has_ctx done_at_end segs, ends segs = true ->
   acceptable (vm_run has_ctx done_at_end segs) = true.
 
-(* proved under the hypothesis that no deferred native call panics while a
-   panic unwinds (vm.fn == nil), env.Stop excepted *)
-Theorem run_outcome_partial : forall has_ctx done_at_end segs,
-  forallb seg_ok segs = true -> ends segs = true ->
-  acceptable (vm_run has_ctx done_at_end segs) = true.
+(* proved for every stream since fix 6756254 (before it, a deferred native call
+   that panicked while vm.fn was nil made convertPanic itself fault: the
+   statement was refuted and proved only under the hypothesis seg_ok) *)
+Theorem C05_run_outcome_holds : C05_run_outcome_statement.
 Proof. exact run_outcome. Qed.
-Print Assumptions run_outcome_partial.
+Print Assumptions C05_run_outcome_holds.
 
 Theorem run_outcome_classes_holds : forall has_ctx done_at_end segs,
-  forallb seg_ok segs = true -> ends segs = true ->
+  ends segs = true ->
   match vm_run has_ctx done_at_end segs with
   | RRCtx => has_ctx = true
   | RRHostPanicGo | RRStuck => False
@@ -143,16 +142,17 @@ Theorem run_outcome_classes_holds : forall has_ctx done_at_end segs,
   end.
 Proof. exact run_outcome_classes. Qed.
 
-(* the full statement is refuted by the faithful model: a panic, then a
-   deferred native function that panics (recorded finding, replayed by the sweep) *)
-Theorem run_outcome_refuted :
-  exists has_ctx done_at_end segs, ends segs = true /\ acceptable (vm_run has_ctx done_at_end segs) = false.
-Proof.
-  exists false, false,
+(* the former witnesses of the refutation (recorded findings
+   host-panic:deferred-native-call-while-unwinding and
+   host-panic:deferred-native-panic-at-return, repaired by 6756254): a panic,
+   then a deferred native function that panics while it unwinds; a deferred
+   native function that panics when the function returns *)
+Theorem run_outcome_deferred_native_repaired :
+  vm_run false false
     [SgRaise false gen_OpPanic false (mkP KOther [] 0) 1;
-     SgRaise true gen_OpCallNative true (mkP KString [110] 0) 0].
-  split; [reflexivity|]. rewrite unwinding_native_panic_refutes. reflexivity.
-Qed.
+     SgRaise true gen_OpCallNative true (mkP KString [110] 0) 0] = RRPanicError /\
+  vm_run false false [SgRaise true gen_OpReturn false (mkP KString [110] 0) 0] = RRPanicError.
+Proof. exact unwinding_native_panic_repaired. Qed.
 
 (* entries of the fault table evaluated in the model *)
 Example run_outcome_examples :
